@@ -1,3 +1,322 @@
-import RlibModel.Model.Common
-/-! Line-protocol driver for engine `dsu` (stub: to be written by the engine's author). -/
-def main : IO Unit := pure ()
+import RlibModel.Model.Dsu
+/-!
+Line-protocol driver for engine `dsu` (property C05).
+
+A case is a history `n0 ; op ; op ; …` on `DSU::new(n0)` (plus a saved clone of it).  Ops:
+  `un u v` `par v` `check u v` `size v` `reset n` `clone` `swap` `dump`
+and macro ops that both sides expand to the same primitive calls (adversarial orders for large n):
+  `chain a b` (un(i,i+1), i=a..b-2)   `chainr a b` (un(i+1,i))   `star c a b` (un(c,i))   `starr c a b` (un(i,c))
+  `binom lo hi` (rounds pairing the *last* elements of equal blocks: the binomial-tree worst case, no compression)
+  `rand seed cnt` (SplitMix64 pairs mod n)   `parall` `sizeall` `checkadj`.
+One result token per op, blank-separated; the first panic ends the history.
+  raw : un/check `t|f`, par/size number, reset/clone/swap `-`, dump `p=[..]/sz=[..]/depth=D` (hashes when n > 64),
+        union macros `<number of true>:<fnv64 of the answers>`, parall/sizeall/checkadj `#<fnv64>`.
+  view: as raw, except par ↦ `r` (the representative is a member of the class and the same as the one reported for
+        that class since its last real union; else `R!`), parall likewise, dump ↦ `depth-ok` (every vertex's depth is
+        ≤ log2 of its root's size; else `DEPTH!`).
+  spec: the partition `Part` (quick-find), nothing forest-like; `any` if some argument is out of range.
+-/
+open Rlib Rlib.Dsu
+
+def fnvInit : UInt64 := 0xcbf29ce484222325
+@[inline] def fnvStep (h : UInt64) (x : Nat) : UInt64 := (h ^^^ x.toUInt64) * 0x100000001b3
+def hex16 (h : UInt64) : String := toHex h.toNat 16
+
+/-- the partition spec plus the representative reported for each class since its last real union -/
+structure PSpec where
+  part : Part
+  reps : Array (Option Nat)
+
+def PSpec.new (n : Nat) : PSpec := ⟨Part.new n, Array.replicate n none⟩
+
+def PSpec.union : PSpec → Nat → Nat → PSpec × Bool
+  | ⟨part, reps⟩, u, v =>
+    let a := part.label.getD u u
+    let b := part.label.getD v v
+    match part.union u v with
+    | (part', true) => (⟨part', (reps.setIfInBounds a none).setIfInBounds b none⟩, true)
+    | (part', false) => (⟨part', reps⟩, false)
+
+/-- is `r` an acceptable answer of `par v`?  records it. -/
+def PSpec.rep : PSpec → Nat → Nat → PSpec × Bool
+  | ⟨part, reps⟩, v, r =>
+    let l := part.label.getD v v
+    let ok := r < part.n && part.label.getD r r == l &&
+      (match reps.getD l none with | none => true | some r0 => r0 == r)
+    (⟨part, reps.setIfInBounds l (some r)⟩, ok)
+
+structure DState where
+  sys : Sys
+  spC : PSpec
+  spS : PSpec
+
+/-- result of one op: the three tokens, or a panic that ends the history -/
+structure Tok where
+  raw : String
+  view : String
+  spec : String
+
+def tok1 (s : String) : Tok := ⟨s, s, s⟩
+def showB (b : Bool) : String := if b then "t" else "f"
+
+/-! #### forest depth, read from the model's arrays exactly as the harness reads the `Debug` output -/
+
+def depthOf (p : Array Nat) : Nat → Nat → Nat → Nat × Nat
+  | 0, v, d => (v, d)
+  | f + 1, v, d => let q := p.getD v v; if q = v then (v, d) else depthOf p f q (d + 1)
+
+/-- (max depth, first vertex whose depth exceeds log2 of its root's size) -/
+def forestDepth (s : S) : Nat × Option (Nat × Nat × Nat) :=
+  (List.range s.p.size).foldl (fun (acc : Nat × Option (Nat × Nat × Nat)) v =>
+    let (r, d) := depthOf s.p (s.p.size + 1) v 0
+    let szr := s.sz.getD r 0
+    let bad := if d ≤ Nat.log2 szr ∧ szr ≠ 0 then acc.2 else (match acc.2 with | some b => some b | none => some (v, d, szr))
+    (max acc.1 d, bad)) (0, none)
+
+def dumpTok (s : S) : Tok :=
+  let (dmax, bad) := forestDepth s
+  let raw :=
+    if s.p.size ≤ 64 then s!"p={showNats s.p.toList}/sz={showNats s.sz.toList}/depth={dmax}"
+    else
+      let hp := s.p.foldl fnvStep fnvInit
+      let hs := s.sz.foldl fnvStep fnvInit
+      s!"p#{hex16 hp}/sz#{hex16 hs}/depth={dmax}"
+  let view := match bad with
+    | none => "depth-ok"
+    | some (v, d, z) => s!"DEPTH!v={v},d={d},size={z}"
+  ⟨raw, view, "depth-ok"⟩
+
+/-! #### macro ops: lists of union pairs -/
+
+def binomPairs (lo hi : Nat) : List (Nat × Nat) :=
+  let rec rounds (fuel step : Nat) (acc : List (Nat × Nat)) : List (Nat × Nat) :=
+    match fuel with
+    | 0 => acc
+    | fuel + 1 =>
+      if step ≥ hi - lo then acc
+      else
+        let blocks := (hi - lo) / (2 * step)
+        let acc := (List.range blocks).foldl (fun acc k =>
+          let i := lo + k * 2 * step
+          (i + step - 1, i + 2 * step - 1) :: acc) acc
+        rounds fuel (2 * step) acc
+  (rounds 64 1 []).reverse
+
+def smNext (s : UInt64) : UInt64 × UInt64 :=
+  let s := s + 0x9E3779B97F4A7C15
+  let z := (s ^^^ (s >>> 30)) * 0xBF58476D1CE4E5B9
+  let z := (z ^^^ (z >>> 27)) * 0x94D049BB133111EB
+  (s, z ^^^ (z >>> 31))
+
+def randPairs (seed : Nat) (cnt n : Nat) : List (Nat × Nat) :=
+  if n = 0 then [] else
+  let rec go (k : Nat) (s : UInt64) (acc : List (Nat × Nat)) : List (Nat × Nat) :=
+    match k with
+    | 0 => acc
+    | k + 1 =>
+      let (s, a) := smNext s
+      let (s, b) := smNext s
+      go k s ((a.toNat % n, b.toNat % n) :: acc)
+  (go cnt seed.toUInt64 []).reverse
+
+def macroPairs (n : Nat) : List String → Option (List (Nat × Nat))
+  | ["chain", a, b] => do
+    let a ← parseNat? a; let b ← parseNat? b
+    pure ((List.range (b - 1 - a)).map (fun k => (a + k, a + k + 1)))
+  | ["chainr", a, b] => do
+    let a ← parseNat? a; let b ← parseNat? b
+    pure ((List.range (b - 1 - a)).map (fun k => (a + k + 1, a + k)))
+  | ["star", c, a, b] => do
+    let c ← parseNat? c; let a ← parseNat? a; let b ← parseNat? b
+    pure ((List.range (b - a)).map (fun k => (c, a + k)))
+  | ["starr", c, a, b] => do
+    let c ← parseNat? c; let a ← parseNat? a; let b ← parseNat? b
+    pure ((List.range (b - a)).map (fun k => (a + k, c)))
+  | ["binom", lo, hi] => do
+    let lo ← parseNat? lo; let hi ← parseNat? hi
+    pure (binomPairs lo hi)
+  | ["rand", seed, cnt] => do
+    let seed ← parseNat? seed; let cnt ← parseNat? cnt
+    pure (randPairs seed cnt n)
+  | _ => none
+
+/-- accumulator of a union macro: model state, spec state, (#true, hash) of model and of spec answers -/
+structure MacroAcc where
+  s : S
+  sp : PSpec
+  mt : Nat
+  mh : UInt64
+  st : Nat
+  sh : UInt64
+  err : Option Panic
+
+def runPairs (s : S) (sp : PSpec) (pairs : List (Nat × Nat)) : MacroAcc :=
+  pairs.foldl (fun (acc : MacroAcc) (uv : Nat × Nat) =>
+    match acc with
+    | ⟨s, sp, mt, mh, st, sh, err⟩ =>
+      match err with
+      | some e => ⟨s, sp, mt, mh, st, sh, some e⟩
+      | none =>
+        let n := s.p.size
+        match un n s uv.1 uv.2 with
+        | .error e => ⟨⟨#[], #[]⟩, sp, mt, mh, st, sh, some e⟩
+        | .ok (s', b) =>
+          let (sp', c) := sp.union uv.1 uv.2
+          ⟨s', sp', mt + (if b then 1 else 0), fnvStep mh (if b then 1 else 0),
+            st + (if c then 1 else 0), fnvStep sh (if c then 1 else 0), none⟩)
+    ⟨s, sp, 0, fnvInit, 0, fnvInit, none⟩
+
+inductive Out where
+  | tok (st : DState) (t : Tok)
+  | stop (t : Tok) (outOfDomain : Bool)
+  | bad
+
+/-- the model failed although every argument is in range: the theorems exclude this, so make it visible -/
+def errTok (e : Panic) : Tok := ⟨e.toString, e.toString, "no-panic"⟩
+
+def withCur (st : DState) (s : S) (sp : PSpec) : DState := ⟨⟨s, st.sys.saved⟩, sp, st.spS⟩
+
+/-- apply a model step; `k` builds the tokens from the result and the updated spec -/
+def prim (st : DState) (op : Op) (inRange : Bool) (k : Sys → Res → Out) : Out :=
+  match step st.sys op with
+  | .error e => if inRange then .stop (errTok e) false else .stop (tok1 e.toString) true
+  | .ok (sys, r) => if inRange then k sys r else .stop (tok1 "no-panic-out-of-range") true
+
+def doOp (st : DState) (toks : List String) : Out :=
+  let n := st.sys.cur.p.size
+  match toks with
+  | ["un", u, v] =>
+    match parseNat? u, parseNat? v with
+    | some u, some v =>
+      let inR := u < n && v < n
+      prim st (.un u v) inR (fun sys r =>
+        match r with
+        | .bool b =>
+          let (sp, c) := st.spC.union u v
+          .tok ⟨sys, sp, st.spS⟩ ⟨showB b, showB b, showB c⟩
+        | _ => .bad)
+    | _, _ => .bad
+  | ["check", u, v] =>
+    match parseNat? u, parseNat? v with
+    | some u, some v =>
+      let inR := u < n && v < n
+      prim st (.check u v) inR (fun sys r =>
+        match r with
+        | .bool b => .tok ⟨sys, st.spC, st.spS⟩ ⟨showB b, showB b, showB (st.spC.part.conn u v)⟩
+        | _ => .bad)
+    | _, _ => .bad
+  | ["size", v] =>
+    match parseNat? v with
+    | some v =>
+      prim st (.size v) (v < n) (fun sys r =>
+        match r with
+        | .nat k => .tok ⟨sys, st.spC, st.spS⟩ ⟨toString k, toString k, toString (st.spC.part.size v)⟩
+        | _ => .bad)
+    | _ => .bad
+  | ["par", v] =>
+    match parseNat? v with
+    | some v =>
+      prim st (.par v) (v < n) (fun sys r =>
+        match r with
+        | .nat k =>
+          let (sp, ok) := st.spC.rep v k
+          .tok ⟨sys, sp, st.spS⟩ ⟨toString k, if ok then "r" else "R!", "r"⟩
+        | _ => .bad)
+    | _ => .bad
+  | ["reset", m] =>
+    match parseNat? m with
+    | some m =>
+      prim st (.reset m) true (fun sys _ => .tok ⟨sys, PSpec.new m, st.spS⟩ (tok1 "-"))
+    | _ => .bad
+  | ["clone"] => prim st .clone true (fun sys _ => .tok ⟨sys, st.spC, st.spC⟩ (tok1 "-"))
+  | ["swap"] => prim st .swap true (fun sys _ => .tok ⟨sys, st.spS, st.spC⟩ (tok1 "-"))
+  | ["dump"] => .tok st (dumpTok st.sys.cur)
+  | ["parall"] =>
+    match st with
+    | ⟨⟨cur, saved⟩, spC, spS⟩ =>
+      let n := cur.p.size
+      let r := (List.range n).foldl (fun (acc : S × PSpec × UInt64 × Bool × Option Panic) v =>
+        match acc with
+        | (s, sp, h, ok, err) =>
+          match err with
+          | some e => (s, sp, h, ok, some e)
+          | none =>
+            match par n s v with
+            | .error e => (⟨#[], #[]⟩, sp, h, ok, some e)
+            | .ok (s', k) =>
+              let (sp', ok') := sp.rep v k
+              (s', sp', fnvStep h k, ok && ok', none)) (cur, spC, fnvInit, true, none)
+      match r with
+      | (s, sp, h, ok, none) => .tok ⟨⟨s, saved⟩, sp, spS⟩ ⟨s!"#{hex16 h}", if ok then "r" else "R!", "r"⟩
+      | (_, _, _, _, some e) => .stop (errTok e) false
+  | ["sizeall"] =>
+    match st with
+    | ⟨⟨cur, saved⟩, spC, spS⟩ =>
+      let n := cur.p.size
+      let r := (List.range n).foldl (fun (acc : S × UInt64 × UInt64 × Option Panic) v =>
+        match acc with
+        | (s, h, hs, err) =>
+          match err with
+          | some e => (s, h, hs, some e)
+          | none =>
+            match size n s v with
+            | .error e => (⟨#[], #[]⟩, h, hs, some e)
+            | .ok (s', k) => (s', fnvStep h k, fnvStep hs (spC.part.size v), none)) (cur, fnvInit, fnvInit, none)
+      match r with
+      | (s, h, hs, none) => .tok ⟨⟨s, saved⟩, spC, spS⟩ ⟨s!"#{hex16 h}", s!"#{hex16 h}", s!"#{hex16 hs}"⟩
+      | (_, _, _, some e) => .stop (errTok e) false
+  | ["checkadj"] =>
+    match st with
+    | ⟨⟨cur, saved⟩, spC, spS⟩ =>
+      let n := cur.p.size
+      let r := (List.range (n - 1)).foldl (fun (acc : S × UInt64 × UInt64 × Option Panic) v =>
+        match acc with
+        | (s, h, hs, err) =>
+          match err with
+          | some e => (s, h, hs, some e)
+          | none =>
+            match check n s v (v + 1) with
+            | .error e => (⟨#[], #[]⟩, h, hs, some e)
+            | .ok (s', b) => (s', fnvStep h (if b then 1 else 0), fnvStep hs (if spC.part.conn v (v + 1) then 1 else 0), none))
+        (cur, fnvInit, fnvInit, none)
+      match r with
+      | (s, h, hs, none) => .tok ⟨⟨s, saved⟩, spC, spS⟩ ⟨s!"#{hex16 h}", s!"#{hex16 h}", s!"#{hex16 hs}"⟩
+      | (_, _, _, some e) => .stop (errTok e) false
+  | _ =>
+    match macroPairs n toks with
+    | none => .bad
+    | some pairs =>
+      match st with
+      | ⟨⟨cur, saved⟩, spC, spS⟩ =>
+        match runPairs cur spC pairs with
+        | ⟨s, sp, mt, mh, st', sh, none⟩ =>
+          .tok ⟨⟨s, saved⟩, sp, spS⟩ ⟨s!"{mt}:{hex16 mh}", s!"{mt}:{hex16 mh}", s!"{st'}:{hex16 sh}"⟩
+        | ⟨_, _, _, _, _, _, some e⟩ =>
+          if pairs.all (fun uv => uv.1 < n && uv.2 < n) then .stop (errTok e) false else .stop (tok1 e.toString) true
+
+def runOps : DState → List String → List Tok → Bool → Option (List Tok × Bool)
+  | _, [], acc, ood => some (acc.reverse, ood)
+  | st, op :: ops, acc, ood =>
+    match doOp st (tokens op) with
+    | .bad => none
+    | .stop t o => some ((t :: acc).reverse, ood || o)
+    | .tok st' t => runOps st' ops (t :: acc) ood
+
+def handle (line : String) : String :=
+  match splitOps line with
+  | [] => badLine line
+  | hdr :: ops =>
+    match parseNat? hdr with
+    | none => "M INVALID | V INVALID | S any"
+    | some n0 =>
+      let st : DState := ⟨initSys n0, PSpec.new n0, PSpec.new n0⟩
+      match runOps st (ops.filter (· ≠ "")) [] false with
+      | none => "M INVALID | V INVALID | S any"
+      | some (ts, ood) =>
+        let j (f : Tok → String) := " ".intercalate (ts.map f)
+        let raw := if ts.isEmpty then "-" else j (·.raw)
+        let view := if ts.isEmpty then "-" else j (·.view)
+        let spec := if ood then "any" else if ts.isEmpty then "-" else j (·.spec)
+        answer3 raw view spec
+
+def main : IO Unit := driverMain handle
